@@ -186,7 +186,7 @@ class SymSim(mosaik_api_v3.Simulator):
         return self.meta
 
     def create(self, num, model):
-        return [{'eid': 'e', 'type': model}]
+        return [{'eid': eid, 'type': model} for eid in ('e', 'f', 'g')[:num]]
 
     def step(self, time, inputs, max_advance):
         eng = CTX['eng']
@@ -235,13 +235,13 @@ class SymSim(mosaik_api_v3.Simulator):
         for eid, attrs in outputs.items():
             for a in attrs:
                 if a == 'op' or self.typ == 'time-based':
-                    data.setdefault(eid, {})[a] = f'{self.sid}#{k}.{a}'
+                    data.setdefault(eid, {})[a] = self._tok(eid, k, a)
                     only_events = False
                 elif quiet:
                     continue
                 else:
-                    if eng.flag(f'{self.sid}.out{k}.{a}'):
-                        data.setdefault(eid, {})[a] = f'{self.sid}#{k}.{a}'
+                    if eng.flag(f'{self.sid}.out{k}.{a}' if eid == 'e' else f'{self.sid}.out{k}.{eid}.{a}'):
+                        data.setdefault(eid, {})[a] = self._tok(eid, k, a)
                         any_event = True
         if only_events and any_event and CTX.get('future_outputs', False):
             if eng.flag(f'{self.sid}.fut{k}'):
@@ -251,6 +251,10 @@ class SymSim(mosaik_api_v3.Simulator):
                     eng.assume(self.t + e <= CTX['until'] + 1)
                 data['time'] = self.t + e
         return data
+
+    def _tok(self, eid, k, a):
+        # provenance token of an output value (the first entity keeps the short historical form)
+        return f'{self.sid}#{k}.{a}' if eid == 'e' else f'{self.sid}.{eid}#{k}.{a}'
 
     def finalize(self):
         self.finalized += 1
@@ -336,7 +340,9 @@ def build(world, ref, topo, eng, cfg):
             else:
                 typ = topo['types'][it]
                 f = world.start('S', sim_id=it, typ=typ)
-                ents[it] = f.M()
+                n_ent = 1 + max([0] + [('e', 'f', 'g').index(e.get(k, 'e')) for e in topo['edges'] for k, s_ in (('se', e['src']), ('de', e['dst'])) if s_ == it])
+                made = f.M.create(n_ent)
+                ents[it] = {x.eid: x for x in made}
                 if ref is not None:
                     ref.add_sim(it, path, typ)
     rec(topo['tree'], ['R'])
@@ -361,7 +367,8 @@ def build(world, ref, topo, eng, cfg):
             kw['initial_data'] = {sa: initial}
         if e.get('async'):
             kw['async_requests'] = True
-        world.connect(ents[src], ents[dst], (sa, da), **kw)
+        se, de = e.get('se', 'e'), e.get('de', 'e')
+        world.connect(ents[src][se], ents[dst][de], (sa, da), **kw)
         if ref is not None:
             st, dt = topo['types'][src], topo['types'][dst]
             persistent = sa == 'op' or st == 'time-based'
@@ -370,10 +377,10 @@ def build(world, ref, topo, eng, cfg):
                 trigger = False
             needed = (not trigger) and ('time_shifted' in kw or bool(kw.get('weak')))
             lenient = (not persistent and not trigger) or (initial is not SENT and not needed)
-            ref.add_conn(src, 'e', sa, dst, 'e', da, k=k, weak=e.get('weak', False), initial=initial,
+            ref.add_conn(src, se, sa, dst, de, da, k=k, weak=e.get('weak', False), initial=initial,
                          persistent=persistent, trigger=trigger, lenient=lenient)
             if e.get('async'):
-                ref.add_conn(src, 'e', None, dst, 'e', None, async_only=True)
+                ref.add_conn(src, se, None, dst, de, None, async_only=True)
     return ents
 
 
